@@ -193,8 +193,8 @@ pub fn run(o: &Opts) -> i32 {
             }
         };
         for op in ["modify", "batch"] {
-            for kind in ["present", "removed", "purged", "set", "assert", "swap", "purgeswap"] {
-                let vals: Vec<&str> = if kind == "swap" || kind == "purgeswap" { vec!["dyn", "reserved"] } else if kind == "purged" { vec!["none"] } else if kind == "present" { vec!["same", "dyn", "reserved", "illtyped"] } else { vec!["same", "dyn", "reserved"] };
+            for kind in ["present", "removed", "purged", "set", "assert", "swap", "purgeswap", "setrename"] {
+                let vals: Vec<&str> = if kind == "swap" || kind == "purgeswap" || kind == "setrename" { vec!["dyn", "reserved"] } else if kind == "purged" { vec!["none"] } else if kind == "present" { vec!["same", "dyn", "reserved", "illtyped"] } else { vec!["same", "dyn", "reserved"] };
                 for tgt in ["user", "builtin"] {
                     for val in vals.iter() {
                         for pos in ["only", "first", "last"] {
@@ -207,6 +207,13 @@ pub fn run(o: &Opts) -> i32 {
                                         // replace the uuid value by two modifies in one request
                                         "swap" => vec![uuid_mod("removed", "same", tu), uuid_mod("present", &val2, tu)],
                                         "purgeswap" => vec![uuid_mod("purged", "none", tu), uuid_mod("present", &val2, tu)],
+                                        // replace the uuid AND give the entry a fresh unique name in the same request
+                                        // (so that no uniqueness rule can mistake the re-identified entry for a duplicate)
+                                        "setrename" => vec![
+                                            uuid_mod("set", &val2, tu),
+                                            Modify::Purged(Attribute::Name),
+                                            Modify::Present(Attribute::Name, Value::new_iname("kv_renamed_in_same_request")),
+                                        ],
                                         _ => vec![uuid_mod(&kind2, &val2, tu)],
                                     };
                                     let ml = match pos2.as_str() {
